@@ -108,8 +108,14 @@ impl RustDocument {
             return;
         }
 
-        // check if the abbreviation is already in use
-        if self.namespace_lookup.contains_key(original_abbreviation) {
+        // check if the abbreviation is already in use for this namespace; a prefix that is bound to ANOTHER namespace
+        // where this node stands is bound anew: the bindings handed in are those in scope of the node, and in XML the
+        // nearest declaration counts (two files, or two components, may use one prefix for different namespaces)
+        if self
+            .namespace_lookup
+            .get(original_abbreviation)
+            .is_some_and(|bound| bound.namespace == url)
+        {
             #[cfg(feature = "verif")]
             crate::verif::ns_ref(
                 original_abbreviation,
